@@ -206,7 +206,17 @@ func optionIniName(option *Option) string {
 		return name
 	}
 
-	return option.field.Name
+	if len(option.field.Name) != 0 {
+		return option.field.Name
+	}
+
+	// An option added with AddOption has no struct field: use the names the
+	// reader accepts next, the namespaced long name or the short name
+	if len(option.LongName) != 0 {
+		return option.LongNameWithNamespace()
+	}
+
+	return string(option.ShortName)
 }
 
 func writeGroupIni(cmd *Command, group *Group, namespace string, writer io.Writer, options IniOptions) {
